@@ -363,8 +363,8 @@ def perturb_right(rng, cells, kind):
         r2 = rng.random()
         if r2 < 0.06 and pe > ps:
             pe = ps + (pe - ps) // 2          # same start, other end
-        elif r2 < 0.12 and pe > ps:
-            ps = ps + (pe - ps) // 2          # same end, other start
+        elif r2 < 0.12 and pe > ps and ps + (pe - ps) // 2 <= ev:
+            ps = ps + (pe - ps) // 2          # same end, other start (evaluation date must stay >= start)
         prev = getattr(c, "prev_evaluation_date", None)
         if kind == "I" and rng.random() < 0.08:
             prev = prev - datetime.timedelta(days=1)
